@@ -1,34 +1,43 @@
 #!/bin/bash
-# usage: confirm_seed.sh <Cxx> [check ids...]
-# Confirms a seeded change produced by a sub-agent in /var/tmp/seed/<Cxx>:
-#   1. the patch applies to /repo HEAD, compiles, and the 83 baseline tests pass with it,
-#   2. the demonstration fails with the change and passes without it (in the agent's worktree),
-#   3. runs the given checks (default: the property itself) against /repo with the patch applied,
-# then reverts /repo and stores everything under /verif/seeded/<Cxx>/.
+# usage: confirm_seed.sh <seed-id> [check ids...]
+# Confirms a seeded change produced by a sub-agent in /var/tmp/seed/<seed-id> WITHOUT touching /repo or
+# /verif/build (other work may be using them): works in an isolated pair
+#   /var/tmp/vc/repo  (git worktree of /repo HEAD + the patch)   /var/tmp/vc/verif (copy of /verif's working tree)
+#   1. the 7 baseline test binaries pass in the agent's worktree built WITH the change,
+#   2. the demonstration fails with the change and passes without it (agent's worktree, rebuilt both ways),
+#   3. the given quick checks (default: the property of the seed id's prefix) run against the patched copy.
+# Everything is stored under /verif/seeded/<seed-id>/.
 set -u
 id=$1; shift
-checks=${*:-$id}
+prop=${id%%-*}
+checks=${*:-$prop}
 wt=/var/tmp/seed/$id
 out=/verif/seeded/$id
-mkdir -p $out
-[ -f $wt/seed_demo/patch.diff ] || { git -C $wt diff -- . ':!seed_demo' > $wt/seed_demo/patch.diff; }
+vc=/var/tmp/vc
+mkdir -p $out $vc
 git -C $wt diff -- . ':!seed_demo' > $out/patch.diff
 [ -s $out/patch.diff ] || cp $wt/seed_demo/patch.diff $out/patch.diff
-cp -r $wt/seed_demo/. $out/demo 2>/dev/null; rm -rf $out/demo/_build $out/demo/*.o
+rm -rf $out/demo; mkdir -p $out/demo; (cd $wt/seed_demo && find . -maxdepth 1 -type f -size -200k -exec cp {} $out/demo/ \;)
 log=$out/confirm.log; : > $log
-cd /repo
-git diff --quiet || { echo "/repo dirty" | tee -a $log; exit 3; }
-git apply --check $out/patch.diff 2>>$log || { echo "PATCH DOES NOT APPLY to /repo HEAD" | tee -a $log; exit 3; }
-# demonstration in the agent's worktree: with change (expect fail), without (expect pass)
-( cd $wt && cmake --build _build -j16 > /dev/null 2>&1; bash seed_demo/run.sh > $out/demo_with.log 2>&1; echo "demo with change rc=$?" ) | tee -a $log
-( cd $wt && git stash -q -- . ':!seed_demo' 2>/dev/null || git stash -q; cmake --build _build -j16 > /dev/null 2>&1; bash seed_demo/run.sh > $out/demo_without.log 2>&1; echo "demo without change rc=$?"; git stash pop -q; cmake --build _build -j16 > /dev/null 2>&1 ) | tee -a $log
-git apply $out/patch.diff
-/verif/tools/baseline_off.sh 2>&1 | tail -1 | tee -a $log
+echo "seed $id property $prop base $(git -C /repo log --format=%h -1)" | tee -a $log
+# 1. baseline tests with the change (agent's worktree)
+( cd $wt && cmake --build _build -j16 > /dev/null 2>&1; tot=0; bad=0
+  for t in BasicTests BuildSystemTests CASTests CAPITests NinjaTests EvoTests CoreTests; do
+    o=$(cd _build/bin && timeout 900 ./$t 2>&1); r=$?; n=$(echo "$o" | grep -c '^\[       OK \]'); tot=$((tot+n)); [ $r -eq 0 ] || bad=1
+  done; echo "tests with change: $tot passed, failures=$bad" ) | tee -a $log
+# 2. demonstration with / without
+( cd $wt && bash seed_demo/run.sh > $out/demo_with.log 2>&1; echo "demo with change rc=$?" ) | tee -a $log
+( cd $wt && git stash -q; cmake --build _build -j16 > /dev/null 2>&1; bash seed_demo/run.sh > $out/demo_without.log 2>&1; echo "demo without change rc=$?"; git stash pop -q; cmake --build _build -j16 > /dev/null 2>&1 ) | tee -a $log
+# 3. checks against an isolated patched copy
+if [ ! -d $vc/repo ]; then git -C /repo worktree add -q --detach $vc/repo HEAD; fi
+git -C $vc/repo checkout -q --detach $(git -C /repo rev-parse HEAD) 2>/dev/null; git -C $vc/repo checkout -q -- . ; git -C $vc/repo clean -qfd -e _build
+git -C $vc/repo apply --check $out/patch.diff 2>>$log || { echo "PATCH DOES NOT APPLY to /repo HEAD" | tee -a $log; exit 3; }
+git -C $vc/repo apply $out/patch.diff
+mkdir -p $vc/verif; rsync -a --delete --exclude build --exclude .git --exclude seeded --exclude evidence --exclude replays /verif/ $vc/verif/
+mkdir -p $vc/verif/evidence $vc/verif/replays
 for c in $checks; do
-  o=$(cd /verif && ./check $c 2>&1); rc=$?
+  o=$(cd $vc/verif && VERIF_REPO=$vc/repo ./check $c 2>&1); rc=$?
   echo "== check $c rc=$rc" | tee -a $log
-  echo "$o" | grep -E "VIOLATION|violation class|KNOWN-FINDING|quick:|harness error|failed" | cut -c1-500 | head -12 | tee -a $log
+  echo "$o" | grep -E "VIOLATION|violation class|KNOWN-FINDING|quick:|harness error|failed" | cut -c1-600 | head -14 | tee -a $log
 done
-git -C /repo checkout -- .
-git -C /repo status --short | grep -v _build | head -3
-find /verif/replays -type f -delete
+git -C $vc/repo checkout -q -- .
